@@ -1,6 +1,7 @@
 package poolsim
 
 import (
+	"os"
 	"encoding/json"
 	"math/rand/v2"
 )
@@ -551,6 +552,22 @@ func Generate(r *rand.Rand, profile string, concurrent bool, av Avoid) *Plan {
 		if r.IntN(4) == 0 {
 			rounds = 4 + r.IntN(7) // a long outage: the window doubles up to a thousandfold
 		}
+		if r.IntN(8) == 0 || os.Getenv("SIM_FORCE_EXTREME") != "" {
+			// extreme but legal: detection windows of hours to weeks (any uint32 number
+			// of milliseconds), or a window of a few milliseconds doubled more than
+			// thirty times (no round-robin BIND there: a waiting one polls every 100 ms)
+			p.Cfg.RR = false
+			switch r.IntN(4) {
+			case 0:
+				p.Cfg.UMs, rounds = 1<<31, 1+r.IntN(3)
+			case 1:
+				p.Cfg.UMs, rounds = 3000000000, 1+r.IntN(3)
+			case 2:
+				p.Cfg.UMs, rounds = 5000000, 9+r.IntN(3)
+			default:
+				p.Cfg.UMs, rounds = uint32(1+r.IntN(3)), 30+r.IntN(5)
+			}
+		}
 		for j := 0; j <= rounds; j++ {
 			for c := 0; c < n; c++ {
 				frag = append(frag, Op{K: OpPick, B: MBound, Keys: []int{k}, D: 1, E: 1})
@@ -558,6 +575,10 @@ func Generate(r *rand.Rand, profile string, concurrent bool, av Avoid) *Plan {
 			wait := int(p.Cfg.UMs)<<uint(j) + []int{1, 1, 2, 5}[r.IntN(4)]
 			if j == rounds {
 				wait = int(p.Cfg.UMs)*[]int{1, 2, 3, 4, 5, 6, 8, 9, 16}[r.IntN(9)] + []int{-1, 0, 1}[r.IntN(3)]
+				if r.IntN(4) == 0 {
+					// well inside the (doubled) window under every reading: nothing may happen
+					wait = int(p.Cfg.UMs) * (1 + r.IntN(3)) / 4
+				}
 			}
 			frag = append(frag, Op{K: OpAdvance, E: wait})
 			for c := 0; c < n; c++ {
@@ -565,6 +586,11 @@ func Generate(r *rand.Rand, profile string, concurrent bool, av Avoid) *Plan {
 			}
 			if j < rounds {
 				frag = append(frag, Op{K: OpConn, A: -1, B: ConnProgress}, Op{K: OpConn, A: -1, B: ConnProgress})
+				if r.IntN(4) > 0 {
+					// the next calls start strictly after the takeover (a call started at that
+					// very instant is "after the last response" or not, as one likes)
+					frag = append(frag, Op{K: OpAdvance, E: 1})
+				}
 			}
 		}
 		at := 3 + r.IntN(len(p.Ops)-3)
